@@ -89,6 +89,10 @@ theorem studentsT_variance_isSome_of_inf (d : StudentsT α)
     (hinf : RFun.isInf d.f_freedom = true) : (StudentsT.variance d).isSome = true := by
   unfold StudentsT.variance; simp [hinf]
 
+/-- entropy is reported for every ν, `ν = ∞` included (both branches are `Some`), any carrier -/
+theorem studentsT_entropy_isSome [SF α] (d : StudentsT α) : (StudentsT.entropy d).isSome = true := by
+  unfold StudentsT.entropy; split_ifs <;> rfl
+
 /-! ### Cauchy: no moment exists -/
 theorem cauchy_no_moments (d : Cauchy α) :
     Cauchy.mean d = none ∧ Cauchy.variance d = none ∧ Cauchy.std_dev d = none ∧
